@@ -277,7 +277,7 @@ def run_check(pid: str, tier: str, replay: str | None = None) -> int:
 
     nworkers = int(os.environ.get("VERIF_WORKERS", "0") or 0) or min(16, os.cpu_count() or 1)
     total = int(prop.budget(tier) * scale)
-    njobs = nworkers * int(os.environ.get("VERIF_JOBS_PER_WORKER", "4"))
+    njobs = nworkers * int(os.environ.get("VERIF_JOBS_PER_WORKER", getattr(prop, "JOBS_PER_WORKER", 4)))
     per = max(1, total // njobs) if total > 0 else 0
     merged = _new_state()
     merged["labels"] = collections.Counter()
